@@ -46,70 +46,71 @@ MW = "server.middleware"
 
 
 def rule_l1(chk: Check) -> None:
-    chk.rule("L1", "token stores: refill clamped at capacity / decrement guarded by availability; refill updates last_update; True only after decrement")
+    chk.rule("L1", "abstract evaluation of TokenBucket.consume (helpers inlined): the token count stays within [0, capacity] on every path, success is reported only after a token was taken, failure leaves the refilled count untouched, and the time stamp is set to the clock reading used")
+    from ..cfg import Builder, inline_local
+    from ..strdom import IntV, ObjV
+
     fi = chk.proj.func(f"{MW}:TokenBucket.consume")
-    g = build_cfg(chk.proj, fi)
-    stores = [n for n in g.nodes if n.kind == "stmt" and isinstance(n.ast, (ast.Assign, ast.AugAssign)) and any(is_self_attr(t, "tokens") for t in (n.ast.targets if isinstance(n.ast, ast.Assign) else [n.ast.target]))]
-    chk.require("L1", fi.key, "token count stores", len(stores), 2, "consume() no longer both refills and decrements the token count")
-    decs = []
-    for n in stores:
-        a = n.ast
-        if isinstance(a, ast.AugAssign) and isinstance(a.op, ast.Sub):
-            decs.append(n)
-            amount = dotted(a.value)
-            tests = [t for t in g.nodes if t.kind == "test" and isinstance(t.ast, ast.Compare) and len(t.ast.ops) == 1 and dotted(t.ast.left) == "self.tokens" and isinstance(t.ast.ops[0], (ast.GtE, ast.Gt)) and (dotted(t.ast.comparators[0]) == amount or norm(t.ast.comparators[0]) == norm(a.value))]
-            blocked = {(t.id, b, lab) for t in tests for b, lab in g.succ[t.id] if lab == "T"}
-            par = g.reach([g.entry.id], blocked_edges=blocked, follow=normal_only)
-            ok = bool(tests) and n.id not in par
-            if not ok:
-                chk.finding("L1", fi.key, "unguarded-decrement", f"`{norm(a)}` is reachable without the availability test `self.tokens >= {amount}` having succeeded: the count can go negative / a request is admitted without allowance", n.where())
-            chk.ob("L1", f"decrement `{norm(a)}` guarded", ok)
-        elif isinstance(a, ast.AugAssign):
-            chk.finding("L1", fi.key, f"token-store:{norm(a)}", f"unexpected in-place update of the token count: `{norm(a)}`", n.where())
-            chk.ob("L1", f"store `{norm(a)}`", False)
-        else:
-            v = a.value
-            clamped = isinstance(v, ast.Call) and dotted(v.func) == "min" and any(dotted(x) == "self.capacity" for x in v.args)
-            if not clamped:
-                # a dominating conditional clamp afterwards
-                clamps = [m for m in g.nodes if m.kind == "stmt" and isinstance(m.ast, ast.Assign) and any(is_self_attr(t, "tokens") for t in m.ast.targets) and dotted(m.ast.value) == "self.capacity"]
-                tests = [t for t in g.nodes if t.kind == "test" and isinstance(t.ast, ast.Compare) and dotted(t.ast.left) == "self.tokens" and isinstance(t.ast.ops[0], (ast.Gt, ast.GtE)) and dotted(t.ast.comparators[0]) == "self.capacity"]
-                if clamps and tests:
-                    # from the store, every path to exit passes the test; its T edge leads to the clamp
-                    par = g.reach([n.id], blocked_nodes={t.id for t in tests}, follow=normal_only)
-                    clamped = g.exit.id not in par
-                if dotted(v) == "self.capacity" or (isinstance(v, ast.Call) and dotted(v.func) == "float" and v.args and dotted(v.args[0]) in ("capacity", "self.capacity")):
-                    clamped = True
-            if not clamped:
-                chk.finding("L1", fi.key, f"unclamped-refill:{norm(v)[:50]}", f"the refill `{norm(a)}` is not bounded by the capacity: after an idle period an address can burst beyond capacity", n.where())
-            chk.ob("L1", f"refill `{norm(a)[:60]}` clamped at capacity", clamped)
-            # time stamp update follows
-            lu = {m.id for m in g.nodes if m.kind == "stmt" and isinstance(m.ast, ast.Assign) and any(is_self_attr(t, "last_update") for t in m.ast.targets)}
-            par = g.reach([n.id], blocked_nodes=lu, follow=normal_only)
-            ok = bool(lu) and g.exit.id not in par
-            # or it precedes the refill on every path (elapsed must be computed first)
-            if not ok and lu:
-                par2 = g.reach([g.entry.id], blocked_nodes=lu, follow=normal_only)
-                ok = n.id not in par2 and _elapsed_before(g, lu)
-            if not ok:
-                chk.finding("L1", fi.key, "refill-without-timestamp", "a refill is not accompanied by updating last_update on every path: the same idle time is credited again on the next call", n.where())
-            chk.ob("L1", "refill updates last_update", ok)
-    # clock expression
-    lus = [m for m in g.nodes if m.kind == "stmt" and isinstance(m.ast, ast.Assign) and any(is_self_attr(t, "last_update") for t in m.ast.targets)]
-    defs = Defs(g)
-    for m in lus:
-        ok = all(isinstance(le, ast.Call) and (dotted(le.func) or "").endswith("monotonic") for _, le in origins(defs, m, m.ast.value)) if isinstance(m.ast.value, ast.Name) else ((dotted(getattr(m.ast.value, "func", None)) or "").endswith("monotonic"))
-        if not ok:
-            chk.finding("L1", fi.key, f"timestamp-value:{norm(m.ast.value)}", "last_update is not set to the clock reading used for this refill", m.where())
-        chk.ob("L1", "last_update = now", ok)
-    # True only after the decrement
-    trues = [r for r in g.nodes if r.kind == "stmt" and isinstance(r.ast, ast.Return) and not (isinstance(r.ast.value, ast.Constant) and r.ast.value.value is False)]
-    par = g.reach([g.entry.id], blocked_nodes={d.id for d in decs}, follow=normal_only)
-    bad = [r for r in trues if r.id in par]
-    ok = bool(decs) and not bad
+    g = Builder(chk.proj, inline_local, 3).build(fi)
+    npar = [p for p in fi.params if p != "self"]
+    CAP, NOW = 10, 1000
+    rets_seen = 0
+    problems: dict[str, tuple] = {}
+    n_paths = 0
+    for t0 in (IntV(0, 0), IntV(0, CAP), IntV(CAP, CAP)):
+        interp = Interp(chk.proj, fi)
+        interp.oracle = {"self.capacity": IntV(CAP, CAP), "self.refill_rate": IntV(0, 5), "self.tokens": t0, "self.last_update": IntV(0, NOW)}
+        interp.call_oracle = lambda c: IntV(NOW, NOW) if (dotted(c.func) or "").startswith("time.") else None
+        init = {npar[0]: IntV(1, 1)} if npar else {}
+        res = interp.run_paths(g, lambda n: [n.ast.value] if n.kind == "stmt" and isinstance(n.ast, ast.Return) and not n.stack and n.ast.value is not None else [], init)
+        for path, (st, recs) in res:
+            if path[-1][0].kind != "exit":
+                continue
+            n_paths += 1
+            tok = interp.eval(ast.parse("self.tokens", mode="eval").body, st)
+            lu = interp.eval(ast.parse("self.last_update", mode="eval").body, st)
+            rv = [vals[0] for node, vals, _ in recs if isinstance(node.ast, ast.Return)]
+            verdict = None
+            if rv:
+                from ..strdom import truthy
+
+                verdict = truthy(rv[-1])
+                rets_seen += 1
+            if not (isinstance(tok, IntV) and tok.lo is not None and tok.hi is not None and tok.lo >= 0 and tok.hi <= CAP):
+                problems.setdefault("bounds", (f"with {t0} tokens before the call, the count afterwards is {tok}: outside [0, capacity={CAP}] (an unclamped refill lets an idle address burst beyond capacity; an unguarded decrement lets it go negative)", path))
+            if verdict is True and isinstance(tok, IntV) and not (tok.hi is not None and tok.hi <= CAP - 1):
+                problems.setdefault("success-without-token", (f"consume() reports success on a path where no token was taken (count afterwards {tok})", path))
+            if verdict is None:
+                problems.setdefault("verdict", ("consume() returns a value whose truth cannot be decided from the availability test", path))
+            if not (isinstance(lu, IntV) and lu.lo == lu.hi == NOW):
+                problems.setdefault("refill-without-timestamp", (f"after the call last_update is {lu}, not the clock reading used for the refill: the same idle time is credited again on the next call", path))
+    for k, (msg, path) in problems.items():
+        chk.finding("L1", fi.key, k, msg, fi.loc(), g.fmt_path(path))
+    chk.ob("L1", f"{fi.key}: 0 <= tokens <= capacity on every path", "bounds" not in problems, f"{n_paths} feasible paths", evals=max(1, n_paths))
+    chk.ob("L1", f"{fi.key}: success only after taking a token", "success-without-token" not in problems and "verdict" not in problems and rets_seen > 0)
+    chk.ob("L1", f"{fi.key}: last_update = clock reading", "refill-without-timestamp" not in problems)
+    # with an empty bucket and no elapsed time the request must be refused
+    interp = Interp(chk.proj, fi)
+    interp.oracle = {"self.capacity": IntV(CAP, CAP), "self.refill_rate": IntV(1, 1), "self.tokens": IntV(0, 0), "self.last_update": IntV(NOW, NOW)}
+    interp.call_oracle = lambda c: IntV(NOW, NOW) if (dotted(c.func) or "").startswith("time.") else None
+    res = interp.run_paths(g, lambda n: [n.ast.value] if n.kind == "stmt" and isinstance(n.ast, ast.Return) and not n.stack and n.ast.value is not None else [], {npar[0]: IntV(1, 1)} if npar else {})
+    from ..strdom import truthy
+
+    verdicts = {truthy([vals[0] for node, vals, _ in recs if isinstance(node.ast, ast.Return)][-1]) for path, (st, recs) in res if path[-1][0].kind == "exit" and any(isinstance(node.ast, ast.Return) for node, _v, _s in recs)}
+    ok = verdicts == {False}
     if not ok:
-        chk.finding("L1", fi.key, "admit-without-decrement", "consume() can report success without having taken a token", (bad or trues or stores)[0].where())
-    chk.ob("L1", "success only after a decrement", ok)
+        chk.finding("L1", fi.key, "admit-on-empty-bucket", f"with an empty bucket and no time elapsed consume() can return {sorted(map(str, verdicts))}: a request is admitted without allowance", fi.loc())
+    chk.ob("L1", f"{fi.key}: empty bucket, no elapsed time -> refused", ok)
+    # and with a full bucket it must be admitted
+    interp = Interp(chk.proj, fi)
+    interp.oracle = {"self.capacity": IntV(CAP, CAP), "self.refill_rate": IntV(1, 1), "self.tokens": IntV(CAP, CAP), "self.last_update": IntV(NOW, NOW)}
+    interp.call_oracle = lambda c: IntV(NOW, NOW) if (dotted(c.func) or "").startswith("time.") else None
+    res = interp.run_paths(g, lambda n: [n.ast.value] if n.kind == "stmt" and isinstance(n.ast, ast.Return) and not n.stack and n.ast.value is not None else [], {npar[0]: IntV(1, 1)} if npar else {})
+    verdicts = {truthy([vals[0] for node, vals, _ in recs if isinstance(node.ast, ast.Return)][-1]) for path, (st, recs) in res if path[-1][0].kind == "exit" and any(isinstance(node.ast, ast.Return) for node, _v, _s in recs)}
+    ok = verdicts == {True}
+    if not ok:
+        chk.finding("L1", fi.key, "refuse-on-full-bucket", f"with a full bucket consume() can return {sorted(map(str, verdicts))}: a request is refused although allowance is available", fi.loc())
+    chk.ob("L1", f"{fi.key}: full bucket -> admitted", ok)
 
 
 def _elapsed_before(g, lu) -> bool:
